@@ -84,8 +84,8 @@ CHECK_DEADLOCK FALSE
 # switches of Nesting.tla that the code under test contains: the three get_context repairs and the
 # `while` of BaseName.parent() that leaves every comprehension context ("CompWhile").  Not in the
 # code (finding parent-chain:lambda-in-class): "LambdaParent".
-ALL_FIXES = ('AsyncColumn', 'DedentCont', 'LambdaInClass', 'CompWhile')
-KNOWN_SWITCHES = ALL_FIXES + ('LambdaParent',)
+ALL_FIXES = ('AsyncColumn', 'DedentCont', 'LambdaInClass', 'CompWhile', 'LambdaParent')
+KNOWN_SWITCHES = ALL_FIXES
 
 
 def default_fixed():
